@@ -441,6 +441,14 @@ fn worker(prop: &props::PropDef, args: &Args) -> i32 {
             r.note(format!("alternate-backend pass: every phase re-run on a 1/{} sample with the {} dispatch arm forced (hook H2)", stride, real::backend_name(be)));
             (prop.run)(&r);
         }
+        // cold-start pass: the cached feature cell is reset before every call, so every call
+        // goes through the dispatcher's first-call (detection) path
+        if !r.stopped() && real::usable_backends() != vec![0] {
+            r.stride.store(stride * 2, std::sync::atomic::Ordering::Relaxed);
+            real::set_backend(255);
+            r.note(format!("cold-start pass: every phase re-run on a 1/{} sample with the cached CPU-feature cell reset to 'not yet detected' before every call (hook H2)", stride * 2));
+            (prop.run)(&r);
+        }
         r.stride.store(1, std::sync::atomic::Ordering::Relaxed);
         real::set_backend(0);
     }
